@@ -37,6 +37,15 @@ pub struct Cfg {
     /// the harness panics (tag 9999) at the start of this iteration (1-based, counted per run)
     #[serde(default)]
     pub stop_at_iter: Option<usize>,
+    /// the harness panics (tag 7777) at the end of an iteration whose outcome prints as this
+    #[serde(default)]
+    pub fail_outcome: Option<String>,
+    /// copy the checkpoint file to `<file>.<n>` at the start of the n-th iteration of this run
+    #[serde(default)]
+    pub snapshot_checkpoints: bool,
+    /// record `loom::verif::fingerprint()` and the main thread's id at the start of every iteration
+    #[serde(default)]
+    pub fingerprint: bool,
 }
 
 fn d_branches() -> usize {
@@ -60,6 +69,9 @@ impl Default for Cfg {
             location: false,
             expect_explicit_explore: false,
             stop_at_iter: None,
+            fail_outcome: None,
+            snapshot_checkpoints: false,
+            fingerprint: false,
         }
     }
 }
@@ -252,6 +264,9 @@ pub fn run<S: IterSink + 'static>(prog: &Program, cfg: &Cfg, sink: S) -> (RunSum
 
     let cap = cfg.iter_cap;
     let stop_at = cfg.stop_at_iter;
+    let fail_outcome = cfg.fail_outcome.clone();
+    let snapshot = if cfg.snapshot_checkpoints { cfg.checkpoint_file.clone() } else { None };
+    let want_fp = cfg.fingerprint;
     let res = {
         let prog = prog.clone();
         let rec = rec.clone();
@@ -268,10 +283,28 @@ pub fn run<S: IterSink + 'static>(prog: &Program, cfg: &Cfg, sink: S) -> (RunSum
                 if cap != 0 && n > cap {
                     panic!("{}", CAP_TAG);
                 }
+                if let Some(f) = &snapshot {
+                    let _ = std::fs::copy(f, format!("{}.{}", f, n));
+                }
                 if stop_at == Some(n) {
                     panic!("{}9999", USER_TAG);
                 }
+                if want_fp {
+                    let fp = loom::verif::fingerprint();
+                    let mut r = rec.lock().unwrap();
+                    for (i, x) in fp.iter().enumerate() {
+                        r.notes.push((200, i as u64, *x as u64));
+                    }
+                    let id = format!("{:?}", loom::thread::current().id());
+                    r.notes.push((201, 0, if id == "ThreadId(0)" { 0 } else { 1 }));
+                }
                 run_iteration(&prog, &rec);
+                if let Some(fo) = &fail_outcome {
+                    let o = fmt_outcome(&rec.lock().unwrap().results);
+                    if &o == fo {
+                        panic!("{}7777", USER_TAG);
+                    }
+                }
             })
         }))
     };
